@@ -596,6 +596,7 @@ type replayCase struct {
 	Queries []specJSON `json:"queries"`
 	Note    string     `json:"note,omitempty"`
 	Detail  any        `json:"detail,omitempty"`
+	Chain   *chainCase `json:"chain,omitempty"` // chain phase witness (chains.go)
 }
 
 func (r *runner) caseFor(idx []int) replayCase {
@@ -632,6 +633,10 @@ func main() {
 			fmt.Println("cannot load replay:", err)
 			os.Exit(3)
 		}
+		if c.Chain != nil {
+			replayChain(c.Chain, c.Key)
+			rep.Finish()
+		}
 		f := &family{Name: c.Family, Via: c.Via, Lazy: c.Lazy}
 		for _, j := range c.Queries {
 			s, err := j.toSpec()
@@ -645,6 +650,7 @@ func main() {
 		replayKey = c.Key
 	} else {
 		fams = buildFamilies(rep.Thorough(), rep.Seed)
+		runChains(rep.Thorough(), rep.Seed) // the cache inside realistic sequences (chains.go)
 	}
 
 	type task struct {
